@@ -38,8 +38,11 @@ CHECKS = {
             "Proved for all valid NFAs/DFAs (unbounded): whenever the subset construction returns (always up to 14 NFA states; fixed large "
             "budget beyond) the result is a valid DFA with exactly the NFA's language; NFA.from_dfa gives a valid NFA with the DFA's language; "
             "the comparators nfa_diff / nfa_dfa_diff used to judge implementation results decide language equality exactly. "
-            "eliminate_lambda (mirror model shared with C08): total, valid result, same language, no empty-string transition left; "
-            "'no unreachable state' is checked on the implementation's result by extracted code on every run, not proved of the model.",
+            "eliminate_lambda (mirror model shared with C08): total, valid result, same language, no empty-string transition left, every "
+            "state of the result is the end of a path from its initial state (C07_eliminate_lambda). The two flags computed by extracted "
+            "code on the implementation's result on every run are proved exact (C07_flags_exact): has_eps_key = false iff no row has an "
+            "empty-string key; all_reachable = Ok true iff every state is graph-reachable from the initial state (= word-reachable when "
+            "no row lists a key twice).",
             "", "7/C07"),
     "C09": ("Coq theorems about the verified NFA comparator (subset construction on the fly) + differential correspondence",
             "Proved for all valid NFA pairs (unbounded): whenever == / != return (always for <= 14 states in total) they are exactly language "
@@ -55,8 +58,14 @@ CHECKS = {
             "enough fuel; the DPDA constructor accepts a well-formed table iff no configuration has two applicable moves (only "
             "NondeterminismError otherwise); on such a table the k-th DPDA configuration is the unique configuration reachable in k moves, "
             "the DPDA verdict is the textbook verdict, only return/RejectionException end the run, and DPDA and NPDA verdicts coincide on "
-            "every pair of fuels on which both return. Termination is not proved (it does not hold in general): Err Fuel is excluded by "
-            "the statements, as the property's quantifier allows. Model tied to the code by exact comparison of every yielded "
+            "every pair of fuels on which both return. Termination does not hold in general (Err Fuel is excluded by those statements), but "
+            "fuel sufficiency is proved for tables whose empty-string moves cannot run forever under a decidable condition: eps_ranked rank N "
+            "(every empty-string move pops without pushing, or replaces the top by one symbol and moves to a state of strictly larger rank; "
+            "eps_shrinking = only pops). Then every move strictly decreases an explicit potential, no run on w has "
+            "|w|*(max_push+1)*(N+1) + 2*(N+1) moves or more, and with that much fuel both readers return Ok true / Ok false, exactly "
+            "according to textbook acceptance (C02_npda_total_for_ranked / _shrinking, C02_dpda_total_for_ranked / _shrinking). The harness "
+            "finds a ranking on each generated table, has the model confirm eps_ranked and checks that the implementation's generator ends "
+            "within the proved bound. Model tied to the code by exact comparison of every yielded "
             "configuration (set), the way the generator ends, accepts_input, the constructor's exception kind, and DPDA-vs-NPDA verdicts "
             "on the implementation alone; implementation always run under a budget of yields.",
             "The model follows DPDA.read_input_stepwise AFTER the repair of DESIGN section 8 row 1 (acceptance test on the start "
@@ -131,9 +140,10 @@ CHECKS = {
             "DTM/NTM verdicts characterised exactly per fuel (accept iff final reached within budget, reject iff all branches stuck); "
             "MNTM BFS: visited configurations reachable, accept only on a reachable final state, reject only when every reachable "
             "configuration was visited and none is final; deterministic table as DTM/NTM/1-tape MNTM gives equal verdicts whenever the "
-            "runs return. Partial: the breadth-first ORDER of MNTM visits (non-decreasing depth) is stated "
-            "(C03_mntm_visits_reachable_statement) but only the reachability/completeness part is proved (..._partial). Model tied to the "
-            "code by exact comparison of traces (state, head-relative non-blank cells), NTM levels as sets, generator endings, "
+            "runs return; the breadth-first ORDER of MNTM visits (C03_mntm_visits_reachable, by the queue invariant 'depth d then depth "
+            "d+1, everything shallower already dequeued'): the dequeued configurations carry non-decreasing depths, each is reachable in "
+            "exactly its depth, and unless fuel ran out everything reachable in fewer moves than the last dequeued one was dequeued. "
+            "Model tied to the code by exact comparison of traces (state, head-relative non-blank cells), NTM levels as sets, generator endings, "
             "accepts_input/read_input under a step budget.",
             "Runs are compared up to the step budget only (halting is not assumed).", "7/C03"),
     "C17": ("Coq theorems about an executable, index-by-index model of MNTM.read_input_as_ntm's extended-tape splicing (after the "
